@@ -8,7 +8,7 @@ from harness.common import cps, uncps
 from harness import updimpl
 from harness.props.c15 import FakeOS
 
-BRIDGE = ('Gemato.Bridge.Tree', 'Gemato.Bridge.SrcWalk', 'Gemato.Bridge.SrcUpdate', 'Gemato.Bridge.SrcVerify')
+BRIDGE = ('Gemato.Bridge.Tree', 'Gemato.Bridge.SrcWalk', 'Gemato.Bridge.SrcUpdate', 'Gemato.Bridge.SrcVerify', 'Gemato.Bridge.SrcLoader')
 PROPS = ['Gemato.Props.C16']
 
 
@@ -114,7 +114,7 @@ def oracle(root, start, ignored, dev_of=None, want_dev=None):
     return found
 
 
-def run_impl(root, op, path, handler, xdev=True, fos=None, last_mtime=None):
+def run_impl(root, op, path, handler, xdev=True, fos=None, last_mtime=None, create=False):
     import gemato.recursiveloader as rl
     import gemato.verify as gv
     from gemato.recursiveloader import ManifestRecursiveLoader
@@ -124,7 +124,8 @@ def run_impl(root, op, path, handler, xdev=True, fos=None, last_mtime=None):
         gv.os = fos
     try:
         with treeimpl.time_limit(20):
-            l = ManifestRecursiveLoader(os.path.join(root, 'Manifest'), hashes=['SHA1'], allow_xdev=xdev)
+            l = ManifestRecursiveLoader(os.path.join(root, 'Manifest'), hashes=['SHA1'], allow_xdev=xdev,
+                                        **({'allow_create': True} if create else {}))
             if op == 'verify':
                 kw = {} if handler is None else {'fail_handler': handler}
                 if last_mtime is not None:
@@ -213,6 +214,27 @@ def one(ctx, drv):
                     ctx.fail('boundary-crossing-not-reported', scen, json.dumps(impl)[:200])
                 elif 'xdev' not in probs and impl.get('err') == 'crossdev':
                     ctx.fail('boundary-crossing-reported-wrongly', scen, '')
+            # the same when the tree is being created (no top-level Manifest yet: the device is taken from the directory)
+            top_m = os.path.join(root, 'Manifest')
+            aside = top_m + '.aside'
+            os.rename(top_m, aside)
+            try:
+                probs_c = oracle(root, '', [], dev_of, base_dev)
+                impl = run_impl(root, 'update', '', None, xdev=False, fos=fos, create=True)
+                scen = {'op': 'create-one-file-system', 'mount': mnt, 'links': {l: os.readlink(os.path.join(root, l)) for l in links},
+                        'dirs': dirs}
+                ctx.count('op:' + scen['op'])
+                ctx.case(scen, True, dict(scen, impl=impl))
+                if impl.get('err') == 'internal:HANG':
+                    ctx.fail('walk-does-not-terminate', scen, '')
+                elif 'xdev' in probs_c and 'loop' not in probs_c and impl.get('err') != 'crossdev':
+                    ctx.fail('boundary-crossing-not-reported', scen, json.dumps(impl)[:200])
+                elif 'xdev' not in probs_c and impl.get('err') == 'crossdev':
+                    ctx.fail('boundary-crossing-reported-wrongly', scen, '')
+            finally:
+                if os.path.lexists(top_m):
+                    os.unlink(top_m)
+                os.rename(aside, top_m)
         # one-file-system mode, a single listed FILE on another file system (a file-level symlink or bind mount), in a plain and
         # in an incremental run where the file looks unchanged: the boundary must be reported before any shortcut applies
         if consistent and not links and rng.random() < 0.7:
